@@ -37,7 +37,7 @@ def run(ctx, prefix=PREFIX):
         all_traces += t
         all_meta += m
         for case in ("preserve", "upper", "lower"):
-            t, m = section.random_histories(ctx, rng, p["nrand"] // 4, p["maxops"], ["A", "a", "B", "", "DEPT"],
+            t, m = section.random_histories(ctx, rng, p["nrand"] // 4, p["maxops"], ["A", "a", "B", "", "DEPT", "UNKNOWN", "1"],
                                             kind=kind, read_case=case)
             all_traces += t
             all_meta += m
